@@ -207,6 +207,22 @@ class ConfigLeg(object):
                     sp["gz_fasta"] = True  # gzip-compressed input that ends in a ##FASTA section
                 elif z in (1, 2) and not sp["gtf"]:
                     sp["duplicate_id"] = True  # an import that is expected to fail (duplicate ID) next to the others
+            if draw(st.integers(0, 3)) == 0 and not any(sp.get("duplicate_id") for sp in inputs):
+                # one import in four configurations is expected to fail (duplicate ID) next to imports that must not notice
+                gff = [i for i, sp in enumerate(inputs) if not sp["gtf"]]
+                if not gff and len(inputs) < 3:
+                    inputs.append({"gtf": False, "genes": [[2, 1]] * 6, "tag": "c"})
+                    gff = [len(inputs) - 1]
+                if gff and len(inputs) >= 2:
+                    bad_i = gff[0]
+                    inputs[bad_i]["duplicate_id"] = True
+                    inputs[bad_i].pop("gz_fasta", None)
+                    good = [i for i in range(len(inputs)) if not inputs[i].get("duplicate_id")]
+                    assign[0] = bad_i
+                    for k in range(1, n):
+                        if assign[k] == bad_i and k % 2:
+                            assign[k] = good[k % len(good)]
+                    assign[1] = good[0]
             return {"inputs": inputs, "procs": n, "assign": assign, "offsets_ms": offsets,
                     "readers": draw(st.sampled_from([2, 4, 8, 16, 32])),
                     "same_basename": draw(st.booleans())}
@@ -222,6 +238,11 @@ class ConfigLeg(object):
             labels.append("same-output-basename")
         if any(case["inputs"][i].get("cds_only") for i in case["assign"]):
             labels.append("gtf-without-exons")
+        fails = [bool(case["inputs"][i].get("duplicate_id")) for i in case["assign"]]
+        if any(fails) and not all(fails):
+            labels.append("a-failing-import-among-successful-ones")
+        if any(case["inputs"][i].get("options") == "keep-suffix" for i in case["assign"]):
+            labels.append("kept-intermediate-files")
         return case["procs"] >= 2, labels
 
     def check(self, case, ctx):
